@@ -19,6 +19,7 @@ macro_rules! corpus {
         let amounts: Vec<AmountT> = vec![Amnt!(0.0), Amnt!(1.0), Amnt!(2.5), Amnt!(-7.25), Amnt!(1234.5678), Amnt!(0.001), Amnt!(0.0) * Amnt!(-1.0)];
         for (i, u) in us.iter().enumerate() {
             println!("{} unit {} {:?} {} {} {}", $name, i, u, u.name(), u.symbol(), show(u.scale()));
+            println!("{} asqty {} {}", $name, i, { let u = *u; guard(move || { let q = u.as_qty(); format!("{} {:?}", show(q.amount()), q.unit()) }) });
             for (j, v) in us.iter().enumerate() {
                 for a in &amounts {
                     let x: $Q = *a * *u;
@@ -30,6 +31,11 @@ macro_rules! corpus {
                     println!("{} sub {} {} {} {}", $name, i, j, show(a), guard(move || show((x - y).amount())));
                     println!("{} div {} {} {} {}", $name, i, j, show(a), guard(move || show(x / y)));
                     println!("{} fmt {} {} {} {}", $name, i, j, show(a), guard(move || format!("[{}] [{:>12.3}] [{:+}] [{:+010.2}] [{:*^14}]", x, x, x, x, x)));
+                    println!("{} rate {} {} {} {}", $name, i, j, show(a), guard(move || {
+                        let r = quantities::Rate::<$Q, $Q>::from_qty_vals(x, y);
+                        let z = r * y;
+                        format!("{} {:?} [{}]", show(z.amount()), z.unit(), r)
+                    }));
                     let _ = u;
                 }
             }
